@@ -529,8 +529,8 @@ func c16Verify(a vh.Args, o *vh.Oracle, r *vh.Result, c *c16Case) error {
 	// expectation, computed independently
 	expect := map[string]string{} // id -> path
 	for _, e := range before {
-		// (a store opened with SkipVerify accepts every object: its Verify has nothing to report)
-		if id, ok := canonicalID(e.Path, c.Unc); ok && e.Kind == "f" && !validObject(c.Unc, e.Data, id) && !c.Skip {
+		// whatever the store's SkipVerify option says: Verify is the check
+		if id, ok := canonicalID(e.Path, c.Unc); ok && e.Kind == "f" && !validObject(c.Unc, e.Data, id) {
 			expect[id] = e.Path
 		}
 	}
@@ -582,6 +582,9 @@ func c16Verify(a vh.Args, o *vh.Oracle, r *vh.Result, c *c16Case) error {
 			cls := "verify/misses-invalid"
 			if id == strings.Repeat("0", 64) {
 				cls = "verify/zero-id-accepted"
+			}
+			if c.Skip {
+				cls = "verify/skip-verify-reports-nothing"
 			}
 			fail(cls, "invalid chunk not reported: "+p)
 		}
